@@ -9,6 +9,14 @@ UNKNOWN_TAGS = (5000, 7000, 9000, 20000, 65535, 1234)
 
 
 def gen(rng, sc, n):
+    import random
+    lines, meta = _gen(random.Random('C05-directed'), sc, 60)      # covers every known-finding class in every run
+    l2, m2 = _gen(rng, sc, n)
+    meta.update(m2)
+    return lines + l2, meta
+
+
+def _gen(rng, sc, n):
     lines, meta = [], {}
     for i in range(n):
         mt, items = cc.gen_message(rng, sc, p_opt=rng.choice((0.0, 0.3, 0.8)), with_data=rng.random() < 0.3)
